@@ -112,33 +112,25 @@ def r3(chk):
                      "margin := 2 * assorter.mean(cvr_list, use_style = the stratum's use_style) - 1", got, want, node=smc,
                      strength="N")
     # Assorter.mean and set_tally_pool_means: identical style filter
-    mean = chk.fn(REL, "Assorter.mean", canonical=True)
     stp = chk.fn(REL, "Assorter.set_tally_pool_means", canonical=True)
     want_f = spec.cond_term("(not use_style) or c.has_contest(self.contest.id)")
-    filters = {}
-    for fn, q in ((mean, "Assorter.mean"), (stp, "Assorter.set_tally_pool_means")):
-        f, node = aud.style_filter(fn)
-        if f is None:
-            raise AnalysisError(f"{q}: style-filter idiom not found")
-        filters[q] = f("c", lambda: Tx())
-        ok, n, cex = aud.cond_equiv(filters[q], want_f)
-        chk.ob("C03.R3", W(q), "style-filter", ok,
-               "cards are filtered by `not use_style or card.has_contest(own contest id)`", node=node,
-               extracted=fmt_cond(filters[q]), rows=n, strength="N")
-    # mean: np.mean of assort(c) over the filtered cvr_list
-    rets = [n for n in walk_local(mean) if isinstance(n, ast.Return)]
-    ok = False
-    detail = {}
-    if len(rets) == 1 and isinstance(rets[0].value, ast.Call) and norm(rets[0].value.func) in ("np.mean", "numpy.mean"):
-        cs = aud.comps(rets[0].value)
-        if len(cs) == 1:
-            elt, tgt, it, ifs = aud.single_gen(cs[0])
-            detail = dict(elt=norm(elt), iter=norm(it), ifs=[norm(i) for i in ifs])
-            ok = norm(elt) == f"self.assort({norm(tgt)})" and norm(it) == "cvr_list" and len(ifs) == 1 \
-                and norm(ifs[0]) == f"{aud.style_filter(mean)[0].name}({norm(tgt)})"
-    chk.ob("C03.R3", W("Assorter.mean"), "mean-over-filtered-cards", ok,
-           "mean == np.mean of the assorter over exactly the filtered cards of cvr_list", node=rets[0] if rets else mean,
-           strength="N", **detail)
+    mf = aud.mean_facts(chk)
+    okm = mf["filter"] is not None and aud.cond_equiv(mf["filter"], want_f)[0]
+    chk.ob("C03.R3", W("Assorter.mean"), "style-filter", okm,
+           "cards are filtered by `not use_style or card.has_contest(own contest id)`", node=mf["node"],
+           extracted=fmt_cond(mf["filter"]) if mf["filter"] is not None else None, strength="N")
+    f, node = aud.style_filter(stp)
+    if f is None:
+        chk.ob("C03.R3", W("Assorter.set_tally_pool_means"), "style-filter", False,
+               "cards are filtered by `not use_style or card.has_contest(own contest id)`", node=stp, extracted=None, strength="N")
+    else:
+        fc = f("c", lambda: Tx())
+        ok, n, cex = aud.cond_equiv(fc, want_f)
+        chk.ob("C03.R3", W("Assorter.set_tally_pool_means"), "style-filter", ok,
+               "cards are filtered by `not use_style or card.has_contest(own contest id)`", node=node, extracted=fmt_cond(fc), rows=n, strength="N")
+    chk.ob("C03.R3", W("Assorter.mean"), "mean-over-filtered-cards", mf["over_filtered"],
+           "mean == the assorter's average over exactly the filtered cards of cvr_list (np.mean of the filtered values, or the "
+           "filtered sum over the filtered count)", node=mf["node"], strength="N", **mf["detail"])
     # set_tally_pool_means: one loop over [cvr for cvr in cvr_list if filtr(cvr) and cvr.pool]; n += 1; tot += assort
     loops = [l for l in walk_local(stp) if isinstance(l, ast.For)]
     acc = None
